@@ -153,8 +153,20 @@ pub fn run(em: &mut Emit, thorough: bool, seed: u64) {
               "-9223372036854775808ns", "-9223372036854775809ns", "2562047h47m16.854775807s", "2562047h47m16.854775808s",
               "-2562047h47m16.854775808s", "2562048h", "99999999999999999999h", "0.000000000000000000001h", "1.0000000000000000000000001s",
               "4.265176228s", "174h51m33.380207408s", "1h1h", "1s1h", "0.5ns", "0.9999999999ns", "1.9999999999999999999999999999ns",
+              "1h0", "1h0m0", "-1m0", "1.5s0", "1ns0", "0s0", "10", "1h00", "1h5", "00", "0 ", "0h0", "00s", "1s0s", "0.0", "0.", ".0", "-0.0", "+0s0", "0m0",
               "1ms1us1ns", "1m30", "1.5.5s", "1..5s", "١s", "1ｓ", "1h\n", "+-1s", "-+1s", "1e", "0x10s", "1_000s"] {
         text(em, s, "text");
+    }
+    // one whole-number term around every range a conversion could have: i64 nanoseconds, chrono's
+    // own limit of i64::MAX milliseconds, i64 of the unit itself
+    for unit in ["h", "m", "s", "ms", "us", "ns"] {
+        for d in ["9223372036854775807", "9223372036854775808", "9223372036", "9223372037", "9223372036854", "9223372036855", "10000000000000000",
+                  "153722867", "153722868", "153722867280912930", "153722867280912931", "2562047", "2562048", "2562047788015215", "2562047788015216",
+                  "9223372036854775", "9223372036854776", "9000000000000000000", "200000000000000000", "100000000000000000000", "18446744073709551615", "18446744073709551616"] {
+            text(em, &format!("{}{}", d, unit), "text-one-term");
+            text(em, &format!("-{}{}", d, unit), "text-one-term");
+            text(em, &format!("+{}{}", d, unit), "text-one-term");
+        }
     }
     // long digit strings: integer and fractional parts far beyond what 64 (or 128) bits hold
     for &n in &[19usize, 20, 25, 26, 30, 38, 39, 40, 41, 60, 127, 128, 129, 200, 400] {
